@@ -1,5 +1,6 @@
 """C12 — Expansion cutoff never shrinks and keeps headroom."""
 from checks import big_scale
+from checks import fault_inj
 from checks import full_step
 from checks import pure_fns
 from checks import extra_audits
@@ -96,4 +97,6 @@ def main(ck):
     api_cov.run(ck, "c12")   # otherwise unexercised public API, model-free oracles of this property
     big_scale.run(ck, "longstring.schedule")   # large-scale regime (>65536 bonds/ops/slots, release semantics): model-free oracles of the property statements
     big_scale.run(ck, "longstring.ladder_cutoff")   # large-scale regime (>65536 bonds/ops/slots, release semantics): model-free oracles of the property statements
+    fault_inj.run(ck, "ising")   # fault injection: a public call that panics part-way (bad beta, failing rng/Hamiltonian/callback) under catch_unwind; a surviving object must satisfy the property oracles
+    fault_inj.run(ck, "generic")   # fault injection: a public call that panics part-way (bad beta, failing rng/Hamiltonian/callback) under catch_unwind; a surviving object must satisfy the property oracles
     return ck.finish(RULE)
